@@ -14,7 +14,8 @@ def run(ctx):
                         "H11 protocol sessions (pipelines, bodies with content-length / chunked / none, HTTP/1.0, splits at random "
                         "points) against the H11Proto model; HTTPStream call sequences against the stream model; end-to-end "
                         "sessions (methods, targets with queries and escapes, repeated / mixed-case / empty headers, bodies from 0 "
-                        "to 70000 bytes, queue sizes 1/2/10, random task schedules, k-way splits) checked against what the client sent.")
+                        "to 70000 bytes, queue sizes 1/2/10, random task schedules, k-way splits) checked against what the client sent.",
+                        extra=K.h2_extra(["c01"], (150, 2500, 800), crashes=True))
 
 
 def known_still_fails(k):
